@@ -47,11 +47,6 @@ pub fn panic_head(p: &PanicInfo) -> String {
         .take(60)
         .collect();
     let msg = msg.trim_end();
-    if let Some((what, variant)) = msg.split_once(": ") {
-        if what.starts_with("not a") && file.ends_with("eval.rs") {
-            return format!("{file} cast of a `{variant}` value");
-        }
-    }
     format!("{file} \"{msg}\"")
 }
 
